@@ -35,7 +35,9 @@ void splinetable<Alloc>::permuteDimensions(const std::vector<size_t>& permutatio
 	std::unique_ptr<uint64_t[]> t_strides(new uint64_t[ndim]);
 	std::unique_ptr<uint64_t[]> t_nknots(new uint64_t[ndim]);
 	std::unique_ptr<double_ptr[]> t_knots(new double_ptr[ndim]);
-	std::unique_ptr<double*[],void(*)(double**)> t_extents(new double*[ndim],
+	//(value-initialized, so that the deleter sees a null first entry if the
+	//allocation of the array it is to point at fails)
+	std::unique_ptr<double*[],void(*)(double**)> t_extents(new double*[ndim](),
 		[](double** p){
 			if(p && p[0])
 				delete[] p[0];
